@@ -29,6 +29,46 @@ def idx(n):
 
 
 @prim
+def descendants(n):
+    return list(n.descendants) if hasattr(n, 'descendants') and not isinstance(n, str) else []
+
+
+@prim
+def dsize(n):
+    """Number of proper descendants."""
+    return len(descendants(n))
+
+
+@prim
+def dindex(e, x):
+    """Position of node x among e.descendants (identity), their number when x is not one of them."""
+    d = descendants(e)
+    for i, y in enumerate(d):
+        if y is x:
+            return i
+    return len(d)
+
+
+@prim
+def next_element(n):
+    return n.next_element
+
+
+@prim
+def ls_starts(s):
+    """Start offsets of the matches RE_PATTERN_LINE_SPLIT.finditer(s) yields: the line breaks of s, then the end of s."""
+    import soupsieve.util as su
+    return [m.start(0) for m in su.RE_PATTERN_LINE_SPLIT.finditer(s)]
+
+
+@prim
+def ls_end(s, p):
+    """End offset of the line-split match that starts at p."""
+    import soupsieve.util as su
+    return su.RE_PATTERN_LINE_SPLIT.match(s, p).end(0)
+
+
+@prim
 def height(n):
     """Height of the subtree at n (0 for a leaf): the termination measure of recursive descents."""
     kids = getattr(n, 'contents', None)
